@@ -16,6 +16,7 @@ class Case:
     branch_part: str # branch part
     case_id: str     # case ID
     case_type: str   # one of the types: case/else/end
+    indent: int = 0  # indentation of the clause keyword
 
 @dataclass
 class Branch:
@@ -73,6 +74,19 @@ class BranchingList:
         # remove current branch from the state list
         self.state.pop()
        
+    def close_by_indent(self, node, clause:bool=False):
+        """ Close branches whose clauses were left by de-indentation
+
+        :param node: Node that is about to be processed
+        :param bool clause: Node is a clause keyword (closes only deeper branches)
+        """
+        while self.state:
+            indent = self.cases[self._get_case_id()].indent
+            if node.indent<indent or (node.indent==indent and not clause):
+                self._close_branch()
+            else:
+                break
+
     def register_case(self):
         """ Add a new case
         """
@@ -84,12 +98,14 @@ class BranchingList:
         """
         if not self.state:
             return False
-        # count number of true cases
-        branch = self._get_branch_id()
-        num_true = sum([self.cases[c].value==True for c in self.branches[branch].cases])
-        # only first `true` case is valid
-        case = self._get_case_id()
-        return num_true!=1 or self.cases[case].value == False
+        for branch in self.state:
+            # count number of true cases
+            cases = self.branches[branch].cases
+            num_true = sum([self.cases[c].value==True for c in cases])
+            # only first `true` case is valid, in every open branch
+            if num_true!=1 or self.cases[cases[-1]].value == False:
+                return True
+        return False
         
     def solve_case(self, node):
         """ Manage condition nodes
@@ -104,7 +120,7 @@ class BranchingList:
                 path_old = self.cases[id_old].path
             if node.case_type==Keyword.CASE:
                 pass
-            elif node.case_type==Keyword.ELSE and self.cases:
+            elif node.case_type==Keyword.ELSE and path_new in [self.cases[self.branches[b].cases[-1]].path for b in self.state]:
                 pass
             elif node.case_type==Keyword.END and self.cases and path_old==path_new:
                 self._close_branch()
@@ -136,6 +152,7 @@ class BranchingList:
                 branch_part = branch_part,       # part on the branch
                 case_id     = case_id,           # case ID
                 case_type   = node.case_type,    # case type CASE/ELSE/END
+                indent      = node.indent,       # indentation of the clause keyword
             )
         else:
             raise Exception(f"Invalid condition:", node.code)
